@@ -5,7 +5,7 @@ from fractions import Fraction as Fr
 import engine
 import prop
 import streams
-from common import sub_seed
+from common import sub_seed, size
 
 THEOREMS = ["LNN.C20_local",
             "LNN.C20_local_pass",
@@ -64,7 +64,7 @@ def oracle(rec):
 
 
 def run(rep, tier, seed):
-    n = 150 if tier == "quick" else 3000
+    n = size(tier, 150, 3000)
     cases = [gen_case(seed, k) for k in range(n)]
     recs = engine.run_cases("prop", "run_c20", cases, chunksize=2)
     for r, c in zip(recs, cases):
